@@ -227,7 +227,10 @@ def verify_case(reg, con, case, hooks=None):
             nm = f"{eng.prefix}/{what}/post" + (f".{pi + 1}" if len(parts) > 1 else "")
             eng.obls.append(Obl(nm, s.pc, g, "post", {"exit": tag}))
         if not z3.is_true(fr):
-            eng.obls.append(Obl(f"{eng.prefix}/{what}/frame", s.pc, fr, "frame", {"exit": tag}))
+            fparts = flatten_and(fr)
+            for fi, g in enumerate(fparts):
+                nm = f"{eng.prefix}/{what}/frame" + (f".{fi + 1}" if len(fparts) > 1 else "")
+                eng.obls.append(Obl(nm, s.pc, g, "frame", {"exit": tag}))
     res.obls = eng.obls
     if res.paths == 0:
         res.error = "no feasible path"
